@@ -139,6 +139,12 @@ def excel_rows(source_path, sheet=1):
         raise errors.DataFormatError("cannot read Excel file: %s" % error, location)
     except UnicodeError as error:
         raise errors.DataFormatError("cannot decode Excel data: %s" % error, location)
+    except OSError:
+        # Keep errors about missing or inaccessible files as they are.
+        raise
+    except Exception as error:
+        # Broken Excel files can result in all kind of errors, for example zipfile.BadZipFile or struct.error.
+        raise errors.DataFormatError("cannot read broken Excel file: %s" % error, location)
 
 
 def _raise_delimited_data_format_error(delimited_path, reader, error):
